@@ -1101,7 +1101,18 @@ pub fn causes(a: &Analysis, sc: &Scenario, c: usize) -> Vec<Cause> {
     let last_conn = c + 1 == a.conns.len();
     if last_conn {
         for op in a.ops.values() {
-            if matches!(op.spec, OpSpec::Disconnect(_)) && op.first_poll.is_some() && !op.first_poll_ready {
+            // (a disconnect() the server's Maximum Packet Size does not admit is no DISCONNECT:
+            // it is refused and nothing is written - decided from the request itself, since the
+            // caller may have abandoned the future before seeing the refusal)
+            let m = a.inbound.iter().find_map(|i| match &i.p.pkt {
+                Some(Packet::Connack(k)) if i.p.conn == c => Some(k.props.u32(pid::MAXIMUM_PACKET_SIZE)),
+                _ => None,
+            }).flatten();
+            let too_large = match (m, op.spec.expected()) {
+                (Some(m), Some(p)) => crate::refcodec::encode(&p).len() > m as usize,
+                _ => false,
+            };
+            if matches!(op.spec, OpSpec::Disconnect(_)) && op.first_poll.is_some() && !op.first_poll_ready && !too_large && op.err() != Some("MaximumPacketSizeExceeded") {
                 out.push(Cause::UserDisconnect(op.idx));
             }
         }
@@ -1652,6 +1663,17 @@ pub fn c12(a: &Analysis, twin: &Analysis, probe_from: Option<usize>) -> Vec<Viol
             x.property = "C12";
             x.class = format!("C12/side-effect/{}", x.class.trim_start_matches("C10/"));
             out.push(x);
+        }
+    }
+    // a refused request leaves run() alone: it may end gracefully only for a DISCONNECT that
+    // was actually written (or received)
+    for (c, conn) in a.conns.iter().enumerate() {
+        if let Some((seq, Ok(()))) = &conn.run_returned {
+            let written = a.wire.iter().any(|w| w.conn == c && matches!(w.pkt, Packet::Disconnect(_)));
+            let received = a.inbound.iter().any(|i| i.p.conn == c && matches!(&i.p.pkt, Some(Packet::Disconnect(_))) && i.avail_seq.is_some());
+            if !written && !received {
+                out.push(v("C12", "C12/side-effect/run-ended", format!("connection {c}: run() returned Ok(()) at {seq} although no DISCONNECT was written (a refused one does not count)")));
+            }
         }
     }
     // no stream registration disturbed: every subscription still gets exactly its messages
